@@ -264,7 +264,7 @@ pub fn run(ctx: &mut Ctx) {
     for (n, ok) in r9::selftest(false) {
         ctx.selftest(&n, ok);
     }
-    ctx.require(&["annex_kat", "fixed_r_exact", "free_r", "ref_made_accepted", "bitflip_h", "bitflip_h_ge_N", "bitflip_S", "h=0", "h=N-1", "h=N", "h=2^256-1", "h+N_alias", "S=-S", "S=offcurve_y_plus_1", "S=(0,0)", "S=infinity", "S_rerandomised_Z", "msg_changed", "id_changed", "master_key_changed", "msg_empty", "id_empty", "ks=H1(id)_doubling_in_verify", "verifier_has_public_key_only", "interleaved_master_keys_same_id", "id_beyond_2^16_bits", "msg_beyond_2^16_bits", "id_changed_beyond_8191_bytes", "many_calls_one_process"]);
+    ctx.require(&["annex_kat", "fixed_r_exact", "free_r", "ref_made_accepted", "bitflip_h", "bitflip_h_ge_N", "bitflip_S", "h=0", "h=N-1", "h=N", "h=2^256-1", "h+N_alias", "S=-S", "S=offcurve_y_plus_1", "S=(0,0)", "S=infinity", "S_rerandomised_Z", "msg_changed", "id_changed", "master_key_changed", "msg_empty", "id_empty", "ks=H1(id)_doubling_in_verify", "verifier_has_public_key_only", "interleaved_master_keys_same_id", "id_beyond_2^16_bits", "msg_beyond_2^16_bits", "id_changed_beyond_8191_bytes", "many_calls_one_process", "interleaved_opposite_master_keys"]);
     let pr = r9::params();
     // --- Annex example
     if ctx.shard == 0 {
@@ -381,6 +381,13 @@ pub fn run(ctx: &mut Ctx) {
         }
         let mut p = Prng::new(sub, "v");
         let (ksa, ksb) = (rand_scalar(&mut p, &(&pr.n - 1u32)), rand_scalar(&mut p, &(&pr.n - 1u32)));
+        // every other history: OPPOSITE master keys, ksB = N - ksA, whose public keys are P and -P (same x coordinate)
+        let ksb = if i % 2 == 1 {
+            ctx.class("interleaved_opposite_master_keys");
+            &pr.n - &ksa
+        } else {
+            ksb
+        };
         let idl = p.range(1, 12);
         let id = p.bytes(idl);
         let msg = p.bytes(20);
